@@ -377,7 +377,27 @@ pub fn run_history(rng: &mut Rng, sess: &mut Session, hp: &HistParams, out: &mut
         } else {
             gen_lim_d(rng)
         };
-        keys.push((gen_key(rng, i), lim));
+        // one key in four (after the first) is a near-identical twin of the first key: it differs only by trailing
+        // NUL bytes / a line break / a blank, by letter case or by the Unicode composition of a character - byte-for-byte
+        // different keys are different keys, whatever their length
+        let key = if i > 0 && rng.chance(1, 4) {
+            let k0 = keys[0].0.clone();
+            out.bump("keys_near_identical_twins");
+            match rng.below(8) {
+                0 => format!("{k0}\0"),
+                1 => format!("{k0}\0\0\0"),
+                2 => format!("{k0}\n"),
+                3 => format!("{k0} "),
+                4 => format!(" {k0}"),
+                5 if k0.to_uppercase() != k0 => k0.to_uppercase(),
+                6 => format!("{k0}\u{301}"),
+                _ => format!("{k0}\0\0\0\0\0\0\0"),
+            }
+        } else {
+            gen_key(rng, i)
+        };
+        let key = if keys.iter().any(|(k, _)| *k == key) { gen_key(rng, i) } else { key };
+        keys.push((key, lim));
     }
     // "hot expiring key" histories (one in ten): the first key gets a tiny burst and a short emission interval and
     // most of its requests arrive exactly when (or 1 ns after) its stored state has expired, so that dozens of writes
@@ -462,6 +482,10 @@ pub fn run_history(rng: &mut Rng, sess: &mut Session, hp: &HistParams, out: &mut
             }
             Rq { key, lim, q, now }
         };
+        if rng.chance(1, 60) {
+            sess.store.relocate();
+            out.bump("store_relocations");
+        }
         let st = sess.call(&rq);
         if st.resp == Resp::Panic {
             // the store may be left half-updated: report and end this history
